@@ -1,5 +1,6 @@
 """C03 — operator macros agree with hy.pyops and Python: agreement of sibling tables."""
 CANON = True
+STRICT = {"R-LIN-ANON", "R-LIN-VAR", "R-LIN-PATH", "R-EXPR-STORE", "R-REC-FWD"}
 
 import ast
 
@@ -209,6 +210,12 @@ def check(ctx, src):
     if sh is not None:
         ctx.check("Expression([Expression(map(Symbol, ['.', 'hy', 'pyops', name])), *args]).replace(_hy_compiler.this)" in norm(sh.body[0]).replace("\n", ""), "T-SHADOW", f"{compq.MC}|pattern_macro.wrapper|target",
                   "the fallback must call (. hy pyops NAME) with the same arguments", compq.MC, sh.lineno, detail="(. hy pyops name)")
+    from . import c11 as _c11
+    from .. import core as _core
+
+    ctx.rule("R-LIN", "Result-flow rules shared with C11, for the functions of this property: no value placed on a path that excludes the placement of its statements, no expression replaced while the operand's "
+             "temporaries stay exposed, no recursive call that loses a parameter")
+    _core.transfer(ctx, src, _c11, {"R-LIN-PATH", "R-EXPR-STORE", "R-REC-FWD"}, key_filter=lambda k: any(f in k for f in ('compile_maths_expression', 'compile_augassign_expression', 'compile_compare', 'compile_unary', 'compile_chained')))
     ctx.floor("T-ARITY", 28)
     ctx.floor("T-OP", 25)
 
